@@ -357,7 +357,7 @@ func (c *Ctx) err3() {
 			for i := range p.Events {
 				e := &p.Events[i]
 				if e.Kind == pathx.KRecv && e.InSelect {
-					if pr, ok := e.Chan.(*ssa.Parameter); ok && pr.Name() == "quit" {
+					if pr, ok := e.Chan.(*ssa.Parameter); ok && pr.Type().String() == "<-chan struct{}" {
 						iq = i
 					}
 				}
@@ -550,7 +550,24 @@ func (c *Ctx) err5() {
 			last := len(p.Events) - 1
 			r := p.Events[last].Results[0]
 			if !pathx.IsNilConst(r) {
-				b.pass()
+				if p.Start != bo.Blocks[0] {
+					continue // loop segments carry no facts from before the loop
+				}
+				// a channel: the permanent classes must have been excluded first
+				excl := false
+				for i := range p.Events {
+					e := &p.Events[i]
+					if e.Kind == pathx.KCall && e.Callee != nil && e.Callee.Name() == "nonNilIsAny" && len(e.Args) == 2 && isSentinel(e.Args[1], "denyAndEndErrs") {
+						if rel, _, k := p.Known(e.Result, i, -1); k && rel == pathx.RFalse {
+							excl = true
+						}
+					}
+				}
+				if excl {
+					b.pass()
+				} else {
+					b.fail(p, last, "Backoff returns a retry channel on a path that has not excluded the deny and end classes")
+				}
 				continue
 			}
 			ok := false
@@ -558,7 +575,7 @@ func (c *Ctx) err5() {
 				e := &p.Events[i]
 				if e.Kind == pathx.KAssume {
 					for _, at := range e.Atoms {
-						if pr, isP := at.V.(*ssa.Parameter); isP && pr.Name() == "err" && at.Rel == pathx.RNil {
+						if pr, isP := at.V.(*ssa.Parameter); isP && pr.Type().String() == "error" && at.Rel == pathx.RNil {
 							ok = true
 						}
 					}
@@ -613,6 +630,23 @@ func (c *Ctx) err5() {
 			}
 			// a made channel: must be closed by time.AfterFunc with a bounded duration
 			i := p.Index(0, func(e *pathx.Event) bool { return isStd(e, "time.AfterFunc") })
+			if i >= 0 {
+				// ErrClosed must have been excluded before any timer is armed
+				excl := false
+				for j := 0; j < i; j++ {
+					e := &p.Events[j]
+					if isStd(e, "errors.Is") && len(e.Args) == 2 && isSentinel(e.Args[1], "ErrClosed") {
+						if rel, _, k := p.Known(e.Result, j, i); k && rel == pathx.RFalse {
+							excl = true
+						}
+					}
+				}
+				if excl {
+					a.pass()
+				} else {
+					a.fail(p, i, "ReadBackoff arms a retry timer on a path that has not excluded ErrClosed: after Close the read loop is told to try again, forever")
+				}
+			}
 			if _, isLoad := r.(*ssa.UnOp); isLoad && i < 0 {
 				continue // the package level closed channel
 			}
@@ -736,4 +770,52 @@ func (c *Ctx) err6() {
 		refuse.done(1, "a refusing CONNACK returns its connectReturn code")
 		flags.done(3, "header, flag and session-present violations wrap errProtoReset")
 	}
+}
+
+// ---- ERR-7: a failed submission is reported as such ----
+
+func init() {
+	register("ERR-7", []string{"ERR-7"}, func(c *Ctx, _ map[string]bool) { c.err7() })
+}
+
+func (c *Ctx) err7() {
+	wire := c.wireCapable()
+	n := 0
+	for _, name := range []string{"(*Client).Ping", "(*Client).subscribeLevel", "(*Client).Unsubscribe", "(*Client).publish", "(*Client).write", "(*Client).writeNoWait", "(*Client).writeBuffers", "(*Client).writeBuffersNoWait"} {
+		fn := c.Fn("ERR-7", name)
+		if fn == nil {
+			continue
+		}
+		a := c.acc("ERR-7", fn, "failed-wire-call⇒error-derived-from-it-is-returned")
+		for _, p := range c.Paths("ERR-7", fn) {
+			if p.End != pathx.KReturn {
+				continue
+			}
+			last := len(p.Events) - 1
+			for i := range p.Events {
+				e := &p.Events[i]
+				if e.Kind != pathx.KCall || e.Callee == nil || !wire[e.Callee] {
+					continue
+				}
+				er := pathx.ErrResult(e.Result)
+				if er == nil {
+					continue
+				}
+				rel, _, k := p.Known(er, i, last)
+				if !k || rel != pathx.RNotNil {
+					continue
+				}
+				n++
+				res := p.Events[last].Results
+				r := res[len(res)-1]
+				if derivesFrom(r, er, 0) {
+					a.pass()
+				} else {
+					a.fail(p, last, "the packet was not (completely) written, yet the call returns %s, which does not stem from the write error: a request can report success, or somebody else's answer, for a packet that never went out", Expr(r))
+				}
+			}
+		}
+		a.done(1, "every path with a failed write returns an error built from that failure")
+	}
+	c.S.Floor("ERR-7", "failed-write paths of request methods", n, 8)
 }
